@@ -56,6 +56,11 @@ TSend ==
        \/ SendDataInsane(s) /\ Quiet /\ ev.ret = 0
        \/ SendDataOK(s) /\ Transmitted(s)
        \/ SendDataFailsLate(s) /\ Quiet
+       \* the harness had closed the collector's socket (ev.away): a write may vanish, or be refused
+       \/ Has(ev, "away") /\ ev.away /\ ~ev.err /\ ev.wire = << >> /\ ev.ret = MsgLen(s)
+            /\ (SendTemplateOK(s) \/ SendDataOK(s))
+       \* "connection refused" (also for the first write after the collector came back: the error is an earlier datagram's)
+       \/ Has(ev, "refused") /\ ev.refused /\ SendRefused(s) /\ Quiet
 
 \* JSON-record mode: ev.docs = the documents read back from the peer (field name -> text of the value),
 \* ev.want = the same as produced by the harness from the values it generated
